@@ -70,7 +70,7 @@ pub fn match_input(
     let first = ctx.buffer.cur(0);
     let first_lig_id = _hb_glyph_info_get_lig_id(first);
     let first_lig_comp = _hb_glyph_info_get_lig_comp(first);
-    let mut total_component_count = 0;
+    let mut total_component_count: u8 = 0;
     let mut ligbase = Ligbase::NotChecked;
 
     for position in &mut match_positions[1..count] {
@@ -128,13 +128,16 @@ pub fn match_input(
             }
         }
 
-        total_component_count += _hb_glyph_info_get_lig_num_comps(&this);
+        // Only the low four bits are kept (see `_hb_glyph_info_set_lig_props_for_ligature`).
+        total_component_count =
+            total_component_count.wrapping_add(_hb_glyph_info_get_lig_num_comps(&this));
     }
 
     *end_position = iter.index() + 1;
 
     if let Some(p_total_component_count) = p_total_component_count {
-        total_component_count += _hb_glyph_info_get_lig_num_comps(first);
+        total_component_count =
+            total_component_count.wrapping_add(_hb_glyph_info_get_lig_num_comps(first));
         *p_total_component_count = total_component_count;
     }
 
@@ -1343,7 +1346,9 @@ pub fn ligate_input(
                 if this_comp == 0 {
                     this_comp = last_num_comps;
                 }
-                let new_lig_comp = comps_so_far - last_num_comps + this_comp.min(last_num_comps);
+                let new_lig_comp = comps_so_far
+                    .wrapping_sub(last_num_comps)
+                    .wrapping_add(this_comp.min(last_num_comps));
                 _hb_glyph_info_set_lig_props_for_mark(cur, lig_id, new_lig_comp);
             }
             buffer.next_glyph();
@@ -1352,7 +1357,7 @@ pub fn ligate_input(
         let cur = buffer.cur(0);
         last_lig_id = _hb_glyph_info_get_lig_id(cur);
         last_num_comps = _hb_glyph_info_get_lig_num_comps(cur);
-        comps_so_far += last_num_comps;
+        comps_so_far = comps_so_far.wrapping_add(last_num_comps);
 
         // Skip the base glyph.
         buffer.idx += 1;
@@ -1371,7 +1376,9 @@ pub fn ligate_input(
                 break;
             }
 
-            let new_lig_comp = comps_so_far - last_num_comps + this_comp.min(last_num_comps);
+            let new_lig_comp = comps_so_far
+                .wrapping_sub(last_num_comps)
+                .wrapping_add(this_comp.min(last_num_comps));
             _hb_glyph_info_set_lig_props_for_mark(info, lig_id, new_lig_comp)
         }
     }
